@@ -834,7 +834,19 @@ theorem Inv_stepThread {s : State Opts Factory} (inv : Inv P s) (t : Tid) : Inv 
         | create c => exact inv.xl e he
         | store b o f => exact inv.xl e he
 
-theorem Inv_step (V : ValInj P) {s : State Opts Factory} (inv : Inv P s) (l : Label) : Inv P (step T s l) := by
+theorem isIdle_eq {pc : Pc Factory} (h : pc.isIdle = true) : pc = .idle := by
+  cases pc <;> simp [Pc.isIdle] at h <;> rfl
+
+theorem ogc_eq_self {c' : Code} {m : List (Code × Nat)} (h : ∀ e ∈ m, e.1 ≠ c') : ogc c' m = m := by
+  unfold ogc
+  apply List.filter_eq_self.mpr
+  intro e he
+  simpa using h e he
+
+/-- One step preserves the invariant, provided the step is safe (`StepSafe`: only a `gc` step can be
+unsafe — when the entry that dies is shared with an equal-valued distinct code object in use). -/
+theorem Inv_step {s : State Opts Factory} (inv : Inv P s) (l : Label) (hs : StepSafe s l) :
+    Inv P (step T s l) := by
   cases l with
   | thr t => exact Inv_stepThread inv t
   | gc c' =>
@@ -844,41 +856,92 @@ theorem Inv_step (V : ValInj P) {s : State Opts Factory} (inv : Inv P s) (l : La
     · rename_i hnl
       have hnl' : live s c' = false := by
         simpa [live] using hnl
-      have hkeys : ∀ e ∈ s.outer, e.1 ∈ codes P := fun e he => (inv.keys e he).1
-      have hof : ∀ c, c ∈ codes P → c ≠ c' → ofind c (ogc c' s.outer) = ofind c s.outer :=
-        fun c hc hne => ofind_gc V hkeys hc hne
-      have htab : ∀ c o, c ∈ codes P → c ≠ c' →
+      have hsafe : GcSafe s c' := by
+        rcases hs with h | h
+        · rw [hnl'] at h; cases h
+        · exact h
+      rcases hsafe with hnokey | hsafe
+      · -- no entry hangs on c': nothing changes
+        rw [ogc_eq_self hnokey]
+        exact inv
+      have hof : ∀ c, c.val ≠ c'.val → ofind c (ogc c' s.outer) = ofind c s.outer := by
+        intro c hv
+        apply ofind_ogc
+        intro e _ hec
+        rw [hec]; exact fun h => hv h.symm
+      have htab : ∀ c o, c.val ≠ c'.val →
           table ({ s with outer := ogc c' s.outer } : State Opts Factory) c o = table s c o := by
-        intro c o hc hne
-        simp only [table, hof c hc hne]
+        intro c o hv
+        simp only [table, hof c hv]
         rfl
       refine ⟨inv.todo, inv.idle, ?_, inv.lock1, inv.lock2, ?_, inv.xl, ?_⟩
       · intro e he
         exact inv.keys e (mem_ogc.mp he).1
       · intro t th r rest hth htodo
+        have hth0 : s.threads[t]? = some th := hth
         have hne : r.code ≠ c' := by
           intro h
-          have hth0 : s.threads[t]? = some th := hth
           have := live_of_needs hth0 htodo
           rw [h, hnl'] at this; cases this
-        have hrP : r ∈ P := inv.todo th (List.mem_of_getElem? hth) r (by rw [htodo]; exact List.mem_cons_self)
-        exact (PcInv_congr (s := s) (s' := { s with outer := ogc c' s.outer })
-          (hof r.code (mem_codes hrP) hne) rfl th.pc).mpr (inv.pc t th r rest hth htodo)
+        have hsth := (hsafe th (List.mem_of_getElem? hth0)).1
+        rw [htodo] at hsth
+        by_cases hv : r.code.val = c'.val
+        · cases hidle : th.pc.isIdle with
+          | true => rw [isIdle_eq hidle]; simp [PcInv]
+          | false => exact absurd (hsth hidle hv) hne
+        · exact (PcInv_congr (s := s) (s' := { s with outer := ogc c' s.outer })
+            (hof r.code hv) rfl th.pc).mpr (inv.pc t th r rest hth htodo)
       · intro c o
         obtain ⟨h1, h2⟩ := inv.once c o
         refine ⟨h1, fun hpos => ?_⟩
         by_cases hc : c = c'
         · subst hc; exact Or.inr (Or.inr hnl')
-        · have hcP : c ∈ codes P := by
-            have hpos' : 0 < xcount s c o := hpos
-            simp only [xcount, List.length_pos_iff_exists_mem, List.mem_filter, Bool.and_eq_true,
-              decide_eq_true_eq] at hpos'
-            obtain ⟨e, he, hec, _⟩ := hpos'
-            rw [← hec]; exact inv.xl e he
-          rcases h2 hpos with h | h | h
-          · left; rw [htab c o hcP hc]; exact h
-          · exact Or.inr (Or.inl h)
-          · exact Or.inr (Or.inr h)
+        · cases hlive : live s c with
+          | false => exact Or.inr (Or.inr hlive)
+          | true =>
+            have hv : c.val ≠ c'.val := by
+              intro hv
+              simp only [live, List.any_eq_true, Thread.needs, decide_eq_true_eq] at hlive
+              obtain ⟨th, hth, r, hr, hrc⟩ := hlive
+              have hpos' : 0 < xcount s c o := hpos
+              simp only [xcount, List.length_pos_iff_exists_mem, List.mem_filter, Bool.and_eq_true,
+                decide_eq_true_eq] at hpos'
+              obtain ⟨e, he, hec, _⟩ := hpos'
+              exact (hsafe th hth).2 r hr (by rw [hrc]; exact hv) (by rw [hrc]; exact hc) e he (by rw [hrc]; exact hec)
+            rcases h2 hpos with h | h | h
+            · left; rw [htab c o hv]; exact h
+            · exact Or.inr (Or.inl h)
+            · exact Or.inr (Or.inr h)
+
+/-- `ValInj` makes every step safe. -/
+theorem stepSafe_of_valInj (V : ValInj P) {s : State Opts Factory} (inv : Inv P s) (l : Label) :
+    StepSafe s l := by
+  cases l with
+  | thr t => trivial
+  | gc c' =>
+    right
+    by_cases hk : ∀ e ∈ s.outer, e.1 ≠ c'
+    · exact Or.inl hk
+    · right
+      have hc' : c' ∈ codes P := by
+        have : ∃ e ∈ s.outer, e.1 = c' := by
+          apply Classical.byContradiction
+          intro h
+          exact hk (fun e he hec => h ⟨e, he, hec⟩)
+        obtain ⟨e, he, hec⟩ := this
+        rw [← hec]; exact (inv.keys e he).1
+      intro th hth
+      have hcode : ∀ r ∈ th.todo, r.code.val = c'.val → r.code = c' := by
+        intro r hr hv
+        exact valInj_codes V (mem_codes (inv.todo th hth r hr)) hc' hv
+      constructor
+      · cases htodo : th.todo with
+        | nil => trivial
+        | cons r rest =>
+          intro _ hv
+          exact hcode r (by rw [htodo]; exact List.mem_cons_self) hv
+      · intro r hr hv hne
+        exact absurd (hcode r hr hv) hne
 
 theorem Inv_init (progs : List (List (Request Opts))) (hP : ∀ p ∈ progs, ∀ r ∈ p, r ∈ P) :
     Inv P (init progs : State Opts Factory) := by
@@ -904,11 +967,20 @@ theorem Inv_init (progs : List (List (Request Opts))) (hP : ∀ p ∈ progs, ∀
   · intro e he; simp [init] at he
   · intro c o; simp [xcount, init]
 
-theorem Inv_run (V : ValInj P) {s : State Opts Factory} (inv : Inv P s) (sched : List Label) :
+theorem Inv_run {s : State Opts Factory} (inv : Inv P s) (sched : List Label) (hs : SchedSafe T s sched) :
     Inv P (run T s sched) := by
   induction sched generalizing s with
   | nil => exact inv
-  | cons l ls ih => exact ih (Inv_step V inv l)
+  | cons l ls ih => exact ih (Inv_step inv l hs.1) hs.2
+
+/-- `ValInj` makes every schedule safe. -/
+theorem schedSafe_of_valInj (V : ValInj P) {s : State Opts Factory} (inv : Inv P s) (sched : List Label) :
+    SchedSafe T s sched := by
+  induction sched generalizing s with
+  | nil => trivial
+  | cons l ls ih =>
+    have hl := stepSafe_of_valInj V inv l
+    exact ⟨hl, ih (Inv_step inv l hl)⟩
 
 end
 
@@ -998,11 +1070,11 @@ theorem ErrInv_init (progs : List (List (Request Opts))) : ErrInv T (init progs 
     obtain ⟨p, _, rfl⟩ := hth
     simp at hpc
 
-theorem ErrInv_run (V : ValInj P) {s : State Opts Factory} (inv : Inv P s) (h : ErrInv T s) (sched : List Label) :
-    ErrInv T (run T s sched) := by
+theorem ErrInv_run {s : State Opts Factory} (inv : Inv P s) (h : ErrInv T s) (sched : List Label)
+    (hs : SchedSafe T s sched) : ErrInv T (run T s sched) := by
   induction sched generalizing s with
   | nil => exact h
-  | cons l ls ih => exact ih (Inv_step V inv l) (ErrInv_step inv h l)
+  | cons l ls ih => exact ih (Inv_step inv l hs.1) (ErrInv_step inv h l) hs.2
 
 end
 
